@@ -179,7 +179,7 @@ From GE Require Import Proofs.ScopeRoundTrip.
 Theorem C14_resolved_expression_roundtrip : forall scopes e, wf e -> forall rest,
   match parse_cond (sx_core (scope_names scopes) (convert_scopes scopes e) ++ 125%N :: 125%N :: rest) with
   | POk e' r => convert_scopes scopes e' = convert_scopes scopes e /\ r = 125%N :: 125%N :: rest
-  | PFail _ => False
+  | PFail _ _ => False
   end.
 Proof. exact resolved_print_parse. Qed.
 Print Assumptions C14_resolved_expression_roundtrip.
